@@ -146,6 +146,11 @@ def sec_channels(ctx, rng, case):
     want = L.choi(ref)
     ks = cirq.kraus(gate)
     wit = dict(family=spec.name, params=p, gate=repr(gate))
+    D = L.dim_of(spec.shape)
+    shapes = sorted({tuple(np.shape(k)) for k in ks})
+    if not ctx.check(shapes == [(D, D)], "channel-choi==catalogue", "C03:kraus-operator-shape:" + spec.name,
+                     "Kraus operators of shapes %r for a gate on a %d-dimensional space" % (shapes, D), **wit):
+        return
     ctx.check(L.allclose(L.choi(ks), want, ATOL), "channel-choi==catalogue", "C03:kraus-mismatch:" + spec.name,
               lambda: "Choi of cirq.kraus differs by %.3g" % L.maxdiff(L.choi(ks), want), **wit)
     ctx.check(L.is_trace_preserving(ks, ATOL), "channel-trace-preserving", "C03:kraus-not-tp:" + spec.name, "", **wit)
@@ -155,10 +160,11 @@ def sec_channels(ctx, rng, case):
     ctx.check((mix is not None) == cirq.has_mixture(gate), "has_mixture-consistent", "C03:has-mixture:" + spec.name, "", **wit)
     if mix is not None:
         ps = [float(q) for q, _ in mix]
-        ok = abs(sum(ps) - 1) < 1e-8 and all(q >= -1e-12 for q in ps) and all(L.is_unitary(u, 1e-7) for _, u in mix)
+        ok = abs(sum(ps) - 1) < 1e-8 and all(q >= -1e-12 for q in ps) and \
+            all(tuple(np.shape(u)) == (D, D) and L.is_unitary(u, 1e-7) for _, u in mix)
         ctx.check(ok, "mixture-valid", "C03:mixture-invalid:" + spec.name, "probabilities %r" % ps, **wit)
         mk = [math.sqrt(max(q, 0)) * np.asarray(u) for q, u in mix]
-        ctx.check(L.allclose(L.choi(mk), want, ATOL), "mixture-choi==catalogue", "C03:mixture-mismatch:" + spec.name, "", **wit)
+        ctx.check(ok and L.allclose(L.choi(mk), want, ATOL), "mixture-choi==catalogue", "C03:mixture-mismatch:" + spec.name, "", **wit)
     ident = L.choi([np.eye(L.dim_of(spec.shape))])
     ctx.distinct((spec.name, _pkey(p)), nontrivial=not L.allclose(want, ident, 1e-6))
     ctx.sample({"family": spec.name, "params": _pkey(p)})
